@@ -31,6 +31,36 @@ theorem length_enforced (lit rng : EscTable) (prims : List (String × String)) (
       · cases h
     · cases h
 
+/-- **Length is enforced next to intersected patterns.** With two or more patterns the single
+`xs:pattern` facet comes from the external intersection (any text `p`); the length facets written
+beside it are the inferred bounds, so a text whose length breaks them is rejected whatever `p` is. -/
+theorem length_enforced_intersected (lit rng : EscTable) (prims : List (String × String)) (xp : Text) (prim : String)
+    (mn mx : Option Nat) (pats : List Text) (ty : String) (p : Option Text) (a b : Option Nat) (s : Text)
+    (h : simpleType lit rng prims xp prim mn mx pats = .greenery ty a b)
+    (hbreak : lengthOk mn mx s.length = false) : ¬ FacetsValid p a b s := by
+  intro hv
+  unfold simpleType at h
+  split at h
+  · cases h
+  · split at h
+    · split at h <;> cases h
+    · split at h <;> cases h
+    · injection h with _ ha hb; subst ha; subst hb; rw [hv.1] at hbreak; cases hbreak
+
+/-- The intersection is only used for two or more patterns beside the XML-character pattern. -/
+theorem intersection_only_for_several (lit rng : EscTable) (prims : List (String × String)) (xp : Text) (prim ty : String)
+    (mn mx a b : Option Nat) (pats : List Text)
+    (h : simpleType lit rng prims xp prim mn mx pats = .greenery ty a b) : 2 ≤ (pats.filter (· != xp)).length := by
+  unfold simpleType at h
+  split at h
+  · cases h
+  · split at h
+    · split at h <;> cases h
+    · split at h <;> cases h
+    · next hp => rw [hp]; simp
+
+example : simpleType [] [] [("STR", "xs:string")] [120] "STR" (some 2) none [[97], [98], [120]] = .greenery "xs:string" (some 2) none := by decide
+
 /-- If the value has length bounds, a restriction (never a bare `type=`) is written. -/
 theorem bounds_are_written (lit rng : EscTable) (prims : List (String × String)) (xp : Text) (prim ty : String)
     (mn mx : Option Nat) (pats : List Text)
